@@ -121,7 +121,7 @@ def well_formed_cases(r: Run, keys):
     # every per-key total fits i32, but the totals of DIFFERENT keys (of one group, of the whole formula) add up past it
     out += ["(H2O)1000000000", "C(H2O)1000000000N", "((C[13]H3)1000N)500000", "(C2H2)1000000000", "H2147483647O2147483647",
             "(H)2147483647(O)2147483647", "(HO)2147483647", "(C[13]C)2147483647", "((HO)2)1073741823", "(NaCl)2147483647H2147483647",
-            "(C2H4O2N2S2)1000000000"]
+            "(C2H2O2N2S2)1000000000"]
     # deep nesting
     for d in (10, 100, 500, 2000):
         out.append("(" * d + "C" + ")" * d)
@@ -167,8 +167,11 @@ def malformed_cases(r: Run, wf):
         out += ["".join(t) for n in (6, 7) for t in itertools.product(small, repeat=n)]
     # mutations of well-formed formulas
     pool = CLASS_ALPHABET + ["O", "2", "3", "N", "a", "e", "*"]
+    import re
     for s in wf[:: (1 if thorough else 4)]:
-        if len(s) > 80:
+        # counts near the i32 limit are not mutated: an edited digit run multiplies past i32 (arithmetic overflow is out of
+        # C05's scope: a debug build panics there by design of the language, a release build wraps)
+        if len(s) > 80 or re.search(r"\d{9,}", s):
             continue
         for _ in range(2):
             t = list(s)
